@@ -10,7 +10,7 @@ from ..lib import SymText, ok
 from ..native import hexs
 
 
-def check_line_number(chk, T):
+def check_line_number(chk, T, only_panics=False):
     """(a) get_line_number on every text of T characters (class newline / other, byte width 1..4 symbolic) and every
     offset at which a token can start (first byte of a non-newline character)"""
     e = chk.engine()
@@ -26,7 +26,7 @@ def check_line_number(chk, T):
     if any(r.outcome == 'unsupported' for r in res):
         # DESIGN 4.4: code the engine cannot encode is still tested on the real function (never an alarm by itself)
         chk.undecide('get_line_number T=%d: %s' % (T, [r.value for r in res if r.outcome == 'unsupported'][0]))
-        native_line_fallback(chk, T)
+        native_line_fallback(chk, T, only_panics)
         return
     for r in res:
         if r.outcome == 'unsupported':
@@ -53,6 +53,8 @@ def check_line_number(chk, T):
             want = 1 + z3.Sum([z3.If(z3.ULT(x, off), 1, 0) for c, x in zip(concrete_chars, starts) if c[0] == 'nl'] + [z3.IntVal(0)])
             if r.outcome == 'panic':
                 pass
+            elif only_panics:
+                chk.ok(); continue              # (C04 uses this function for totality only; the value is C02's subject)
             else:
                 s.add(z3.BV2Int(r.value.z(), True) != want)
             chk.queries += 1
@@ -106,7 +108,7 @@ def check_line_number(chk, T):
 ALPHABET = ['\n', 'a', ' ', '\r', 'é', '€', '\U0001d11e']
 
 
-def native_line_fallback(chk, T):
+def native_line_fallback(chk, T, only_panics=False):
     """all texts of T characters over a 7-letter alphabet (newline, ASCII, CR, 2/3/4-byte characters), capped by seeded
     sampling at 2000, every token offset: the real function against 1 + #line feeds before the offset"""
     texts = [''.join(t) for t in itertools.product(ALPHABET, repeat=T)]
@@ -122,7 +124,7 @@ def native_line_fallback(chk, T):
             off += len(ch.encode())
     for (o, txt, want), nat in zip(exp, chk.native.run(jobs)):
         chk.states += 1
-        if nat[0] == 'OK' and int(nat[1]) == want:
+        if nat[0] == 'OK' and (only_panics or int(nat[1]) == want):
             continue
         last_line = b'\n' not in txt.encode()[o:]
         key = 'line:panic' if nat[0] != 'OK' else ('line:last-line-without-newline' if last_line else 'line:wrong-line')
